@@ -34,17 +34,11 @@ Proof.
 Qed.
 
 (* ================================================================ A. the writer *)
-Definition proj (s : st) (t : trk) : Prop :=
-  t_cur t = s_cur s /\ t_off t = s_off s /\ t_pend t = length (s_pend s)
-  /\ t_flen t = length (s_file s) /\ t_sync t = s_sync s.
-
-(* s: model state, t: the counters that decide the finding classes, l: the abstract log *)
-Definition winv (s : st) (t : trk) (l : list (list frame) * list frame) : Prop :=
-  proj s t /\
+(* s: model state, l: the abstract log.  The OS cursor always sits at the end of the file. *)
+Definition winv (s : st) (l : list (list frame) * list frame) : Prop :=
   s_closed s = map (map SFrame) (fst l) /\
   s_file s ++ map SFrame (s_pend s) = map SFrame (snd l) /\
-  s_off s = (length (s_file s) + length (s_pend s))%nat /\
-  (s_pend s <> [] -> s_cur s = length (s_file s)).
+  s_cur s = length (s_file s).
 
 Lemma write_at_append : forall fl xs, write_at fl (length fl) xs = fl ++ xs.
 Proof.
@@ -53,161 +47,80 @@ Proof.
   rewrite skipn_all2 by lia. rewrite app_nil_r. reflexivity.
 Qed.
 
-Lemma flush_winv : forall s t l, winv s t l -> winv (flush s) (trk_flush t) l.
-Proof.
-  intros [lo closed file cur off pend idx sync] [tc to tp tf ts tw] l.
-  unfold winv, proj. cbn [s_lo s_closed s_file s_cur s_off s_pend s_idx s_sync t_cur t_off t_pend t_flen t_sync t_why].
-  intros [[Hc [Ho [Hp [Hf Hs]]]] [Hcl [Hfile [Hoff Hpend]]]].
-  subst tc to tp tf ts.
-  unfold flush, trk_flush. cbn [s_lo s_closed s_file s_cur s_off s_pend s_idx s_sync t_cur t_off t_pend t_flen t_sync t_why].
-  destruct pend as [|p pend].
-  - cbn [map write_at length t_cur t_off t_pend t_flen t_sync t_why] in *. rewrite Nat.add_0_r.
-    repeat split; try assumption; try reflexivity; try (intro Hx; contradiction).
-  - assert (Hcur : cur = length file) by (apply Hpend; discriminate).
-    rewrite Hcur. rewrite write_at_append.
-    cbn [t_cur t_off t_pend t_flen t_sync t_why map length].
-    rewrite app_nil_r. rewrite !app_length. cbn [length]. rewrite map_length.
-    cbn [map length app] in *.
-    repeat split; try assumption; try reflexivity; try lia.
-Qed.
-
 Lemma flush_pend : forall s, s_pend (flush s) = [].
 Proof. reflexivity. Qed.
+
+Lemma flush_winv : forall s l, winv s l -> winv (flush s) l.
+Proof.
+  intros [lo closed file cur off pend idx sync] l. unfold winv, flush.
+  cbn [s_lo s_closed s_file s_cur s_off s_pend s_idx s_sync].
+  intros [Hcl [Hfile Hcur]]. subst cur. rewrite write_at_append.
+  cbn [map]. rewrite app_nil_r, app_length, map_length. repeat split; assumption || reflexivity.
+Qed.
 
 Lemma fold_push_fields : forall fs s,
   s_lo (fold_left push_frame fs s) = s_lo s /\
   s_closed (fold_left push_frame fs s) = s_closed s /\
   s_file (fold_left push_frame fs s) = s_file s /\
   s_cur (fold_left push_frame fs s) = s_cur s /\
-  s_off (fold_left push_frame fs s) = (s_off s + length fs)%nat /\
   s_pend (fold_left push_frame fs s) = s_pend s ++ fs /\
   s_sync (fold_left push_frame fs s) = s_sync s.
 Proof.
-  induction fs as [|f fs IH]; intro s; cbn [fold_left length].
-  - rewrite app_nil_r, Nat.add_0_r. repeat split; reflexivity.
-  - destruct (IH (push_frame s f)) as [H1 [H2 [H3 [H4 [H5 [H6 H7]]]]]].
-    rewrite H1, H2, H3, H4, H5, H6, H7. unfold push_frame.
+  induction fs as [|f fs IH]; intro s; cbn [fold_left].
+  - rewrite app_nil_r. repeat split; reflexivity.
+  - destruct (IH (push_frame s f)) as [H1 [H2 [H3 [H4 [H5 H6]]]]].
+    rewrite H1, H2, H3, H4, H5, H6. unfold push_frame.
     cbn [s_lo s_closed s_file s_cur s_off s_pend s_idx s_sync].
-    rewrite <- app_assoc. cbn [app]. repeat split; try reflexivity. lia.
+    rewrite <- app_assoc. cbn [app]. repeat split; reflexivity.
 Qed.
 
-Lemma push_winv : forall fs s t l,
-  winv s t l -> (fs <> [] -> (t_cur t + t_pend t)%nat = t_off t) ->
-  winv (fold_left push_frame fs s)
-       (Trk (t_cur t) (t_off t + length fs) (t_pend t + length fs) (t_flen t) (t_sync t) (t_why t))
-       (fst l, snd l ++ fs).
+Lemma push_winv : forall fs s l, winv s l -> winv (fold_left push_frame fs s) (fst l, snd l ++ fs).
 Proof.
-  intros fs s t l [[Hc [Ho [Hp [Hf Hs]]]] [Hcl [Hfile [Hoff Hpend]]]] Hsync.
-  destruct (fold_push_fields fs s) as [H1 [H2 [H3 [H4 [H5 [H6 H7]]]]]].
-  unfold winv, proj. rewrite H2, H3, H4, H5, H6, H7.
-  cbn [t_cur t_off t_pend t_flen t_sync t_why fst snd].
-  rewrite !app_length, !map_app.
-  repeat split; try assumption; try lia.
-  - rewrite app_assoc, Hfile. reflexivity.
-  - intro Hne. destruct (s_pend s) as [|p ps] eqn:Hps.
-    + cbn [app] in Hne. specialize (Hsync Hne). cbn [length] in *. lia.
-    + apply Hpend. discriminate.
+  intros fs s l [Hcl [Hfile Hcur]].
+  destruct (fold_push_fields fs s) as [H1 [H2 [H3 [H4 [H5 H6]]]]].
+  unfold winv. rewrite H2, H3, H4, H5. cbn [fst snd]. rewrite !map_app, app_assoc, Hfile.
+  repeat split; assumption || reflexivity.
 Qed.
 
-Lemma op_class_write : forall t o,
-  (0 < op_frames o)%nat -> op_class t o = 0 -> (t_cur t + t_pend t)%nat = t_off t.
+Lemma step_winv : forall s l o, winv s l -> winv (step s o) (lstep l o).
 Proof.
-  intros t o Hn Hc.
-  assert (Hgen : (if (0 <? op_frames o)%nat && negb (t_cur t + t_pend t =? t_off t)%nat
-                  then if t_why t =? 2 then 2 else 1 else 0) = 0).
-  { destruct o; cbn [op_frames] in Hn; try lia; exact Hc. }
-  destruct (Nat.ltb_spec 0 (op_frames o)) as [_|Hx]; [|lia].
-  cbn [andb] in Hgen.
-  destruct (Nat.eqb_spec (t_cur t + t_pend t) (t_off t)) as [E|_]; [exact E|].
-  cbn [negb] in Hgen. destruct (t_why t =? 2); discriminate.
+  intros s l o Hinv. destruct o as [f|fs nosync|b| | | |]; cbn [step lstep].
+  - pose proof (push_winv [f] s l Hinv) as H1. cbn [fold_left] in H1.
+    destruct (s_sync (push_frame s f)); [apply flush_winv|]; exact H1.
+  - pose proof (push_winv fs s l Hinv) as H1.
+    destruct (negb nosync && s_sync (fold_left push_frame fs s) && negb (is_nil fs)); [apply flush_winv|]; exact H1.
+  - destruct Hinv as [Hcl [Hfile Hcur]]. unfold winv.
+    cbn [s_lo s_closed s_file s_cur s_off s_pend s_idx s_sync]. repeat split; assumption.
+  - apply flush_winv; exact Hinv.
+  - destruct (flush_winv s l Hinv) as [Hcl [Hfile Hcur]]. rewrite flush_pend in Hfile.
+    cbn [map] in Hfile. rewrite app_nil_r in Hfile. unfold winv.
+    cbn [s_lo s_closed s_file s_cur s_off s_pend s_idx s_sync fst snd map app length].
+    rewrite map_app. cbn [map]. rewrite Hcl, Hfile. repeat split; reflexivity.
+  - unfold winv. cbn [s_lo s_closed s_file s_cur s_off s_pend s_idx s_sync fst snd map app length].
+    repeat split; reflexivity.
+  - destruct (flush_winv s l Hinv) as [Hcl [Hfile Hcur]]. rewrite flush_pend in Hfile.
+    cbn [map] in Hfile. rewrite app_nil_r in Hfile. unfold winv, open_st.
+    cbn [s_lo s_closed s_file s_cur s_off s_pend s_idx s_sync map].
+    rewrite removelast_last, last_last. rewrite Hfile, valid_frames_ideal, <- (map_length SFrame (snd l)), firstn_all.
+    rewrite app_nil_r. repeat split; try assumption; reflexivity.
 Qed.
 
-Lemma step_winv : forall s t l o,
-  winv s t l -> op_class t o = 0 -> winv (step s o) (trk_step t o) (lstep l o).
+Lemma run_winv : forall ops s l, winv s l -> winv (fold_left step ops s) (fold_left lstep ops l).
 Proof.
-  intros s t l o Hinv Hcls. destruct o as [f|fs nosync|b| | | |].
-  - (* OWrite *)
-    assert (Hsy : (t_cur t + t_pend t)%nat = t_off t) by (apply (op_class_write t (OWrite f)); [cbn; lia|exact Hcls]).
-    pose proof (push_winv [f] s t l Hinv (fun _ => Hsy)) as H1. cbn [fold_left length] in H1.
-    cbn [step trk_step lstep]. unfold trk_write.
-    assert (Hs : s_sync (push_frame s f) = t_sync t).
-    { destruct Hinv as [[_ [_ [_ [_ Hs]]]] _]. rewrite Hs. reflexivity. }
-    rewrite Hs. destruct (t_sync t).
-    + apply (flush_winv _ _ _ H1).
-    + exact H1.
-  - (* OBatch *)
-    assert (Hsy : fs <> [] -> (t_cur t + t_pend t)%nat = t_off t).
-    { intro Hne. apply (op_class_write t (OBatch fs nosync)); [|exact Hcls].
-      cbn [op_frames]. destruct fs; [contradiction|cbn [length]; lia]. }
-    pose proof (push_winv fs s t l Hinv Hsy) as H1.
-    cbn [step trk_step lstep]. unfold trk_write.
-    assert (Hs : s_sync (fold_left push_frame fs s) = t_sync t).
-    { destruct (fold_push_fields fs s) as [_ [_ [_ [_ [_ [_ H7]]]]]]. rewrite H7.
-      destruct Hinv as [[_ [_ [_ [_ Hs]]]] _]. rewrite Hs. reflexivity. }
-    rewrite Hs. destruct (negb nosync && t_sync t && negb (is_nil fs)).
-    + apply (flush_winv _ _ _ H1).
-    + exact H1.
-  - (* OSetSync *)
-    destruct Hinv as [[Hc [Ho [Hp [Hf Hs]]]] [Hcl [Hfile [Hoff Hpend]]]].
-    cbn [step trk_step lstep]. unfold winv, proj.
-    cbn [s_lo s_closed s_file s_cur s_off s_pend s_idx s_sync t_cur t_off t_pend t_flen t_sync t_why].
-    repeat split; assumption.
-  - (* OSync *)
-    cbn [step trk_step lstep]. apply flush_winv; exact Hinv.
-  - (* ORotate *)
-    pose proof (flush_winv s t l Hinv) as H1.
-    destruct H1 as [[Hc [Ho [Hp [Hf Hs]]]] [Hcl [Hfile [Hoff Hpend]]]].
-    cbn [step trk_step lstep]. unfold winv, proj.
-    cbn [s_lo s_closed s_file s_cur s_off s_pend s_idx s_sync t_cur t_off t_pend t_flen t_sync t_why fst snd].
-    rewrite flush_pend in Hfile. cbn [map] in Hfile. rewrite app_nil_r in Hfile.
-    rewrite map_app. cbn [map]. rewrite Hcl, Hfile.
-    assert (Hsy : t_sync t = s_sync (flush s)).
-    { rewrite <- Hs. unfold trk_flush. destruct (t_pend t); reflexivity. }
-    repeat split; try reflexivity; try assumption; try (intro Hx; contradiction).
-  - (* OTruncate *)
-    assert (Hp0 : t_pend t = O).
-    { unfold op_class in Hcls. destruct (Nat.ltb_spec 0 (t_pend t)) as [_|Hx]; [discriminate|lia]. }
-    destruct Hinv as [[Hc [Ho [Hp [Hf Hs]]]] [Hcl [Hfile [Hoff Hpend]]]].
-    assert (Hpn : s_pend s = []) by (destruct (s_pend s); [reflexivity|cbn [length] in Hp; lia]).
-    cbn [step trk_step lstep]. unfold flush.
-    cbn [s_lo s_closed s_file s_cur s_off s_pend s_idx s_sync].
-    rewrite Hpn. cbn [map write_at length]. unfold winv, proj.
-    cbn [s_lo s_closed s_file s_cur s_off s_pend s_idx s_sync t_cur t_off t_pend t_flen t_sync t_why fst snd map app length].
-    rewrite Nat.add_0_r.
-    repeat split; try reflexivity; try assumption; try (intro Hx; contradiction).
-  - (* OReopen *)
-    pose proof (flush_winv s t l Hinv) as H1.
-    destruct H1 as [[Hc [Ho [Hp [Hf Hs]]]] [Hcl [Hfile [Hoff Hpend]]]].
-    cbn [step trk_step lstep]. unfold winv, proj, open_st.
-    cbn [s_lo s_closed s_file s_cur s_off s_pend s_idx s_sync t_cur t_off t_pend t_flen t_sync t_why map length].
-    rewrite flush_pend in Hfile.
-    repeat split; try reflexivity; try assumption; try lia; try (intro Hx; contradiction).
+  induction ops as [|o ops IH]; intros s l Hinv; cbn [fold_left]; [exact Hinv|].
+  apply IH. apply step_winv. exact Hinv.
 Qed.
 
-Lemma run_winv : forall ops s t l,
-  winv s t l -> known_from t ops = 0 ->
-  winv (fold_left step ops s) (fold_left trk_step ops t) (fold_left lstep ops l).
-Proof.
-  induction ops as [|o ops IH]; intros s t l Hinv Hk; cbn [fold_left]; [exact Hinv|].
-  cbn [known_from] in Hk.
-  destruct (Z.eqb_spec (op_class t o) 0) as [E|E]; [|contradiction].
-  apply IH; [apply step_winv; assumption|exact Hk].
-Qed.
+Lemma winv_init : winv init_st ([], []).
+Proof. unfold winv, init_st. cbn. repeat split; reflexivity. Qed.
 
-Lemma winv_init : winv init_st trk0 ([], []).
-Proof.
-  unfold winv, proj, init_st, trk0. cbn. repeat split; try reflexivity; try (intro H; contradiction).
-Qed.
-
-(* outside the writer classes the segment files are exactly the frames of the abstract log, in
+(* after EVERY op sequence the segment files are exactly the frames of the abstract log, in
    order, nothing else: nothing overwritten, nothing hidden, no bytes that were never written *)
-Lemma writer_files_l : forall ops,
-  known_ops ops = 0 -> final_files (run ops) = map (map SFrame) (log_of ops).
+Lemma writer_files_l : forall ops, final_files (run ops) = map (map SFrame) (log_of ops).
 Proof.
-  intros ops Hk. unfold known_ops in Hk.
-  pose proof (run_winv ops init_st trk0 ([], []) winv_init Hk) as Hinv.
-  apply flush_winv in Hinv.
-  destruct Hinv as [_ [Hcl [Hfile _]]].
+  intros ops.
+  pose proof (run_winv ops init_st ([], []) winv_init) as Hinv.
+  apply flush_winv in Hinv. destruct Hinv as [Hcl [Hfile _]].
   unfold final_files, run, log_of, lrun. rewrite flush_pend in Hfile. cbn [map] in Hfile.
   rewrite app_nil_r in Hfile. rewrite Hcl, Hfile, map_app. reflexivity.
 Qed.
@@ -219,6 +132,18 @@ Proof.
   induction seg as [|f seg IH]; intros k Hk; cbn [length] in Hk; [lia|].
   destruct k as [|k]; cbn [map set_nth valid_frames slot_frame firstn]; [reflexivity|].
   rewrite IH by lia. reflexivity.
+Qed.
+
+Lemma set_nth_length : forall {A} (l : list A) k v, length (set_nth k v l) = length l.
+Proof. intros A. induction l as [|x l IH]; intros k v; [destruct k; reflexivity|]. destruct k; cbn [set_nth length]; [reflexivity|rewrite IH; reflexivity]. Qed.
+
+Lemma zero_slots_length : forall off e i0 vf vl fl i, length (zero_slots i off e i0 vf vl fl) = length fl.
+Proof. intros off e i0 vf vl. induction fl as [|x l IH]; intro i; cbn [zero_slots length]; [reflexivity|rewrite IH; reflexivity]. Qed.
+
+Lemma zero_intact_le : forall off e i0 vf vl n i, (zero_intact n i off e i0 vf vl <= n)%nat.
+Proof.
+  intros off e i0 vf vl. induction n as [|n IH]; intro i; cbn [zero_intact]; [lia|].
+  destruct (zcls i off e i0 vf vl =? 0); [specialize (IH (i + 1)); lia|lia].
 Qed.
 
 Lemma vf_zero_slots : forall off e i0 vf vl seg i,
@@ -243,31 +168,53 @@ Qed.
 Lemma file_bytes_ideal : forall seg, file_bytes (map SFrame seg) = FRAME * Z.of_nat (length seg).
 Proof. intro seg. unfold file_bytes. rewrite map_length. reflexivity. Qed.
 
+(* does a file end cleanly (its valid frames cover it)? *)
+Definition clean (fl : list slot) : bool := (length (valid_frames fl) =? length fl)%nat.
+
 (* one ideal segment file after the fault: the reader accepts exactly the intact leading frames,
-   provided the first destroyed slot was not turned into zeros *)
+   provided the first destroyed slot was not turned into zeros; the file still ends cleanly only
+   if nothing was destroyed or it was cut at a frame boundary *)
 Lemma dmg_file_ideal : forall d seg,
   ((intact (length seg) d < length seg)%nat -> first_hit_zeroed (length seg) d = false) ->
-  valid_frames (dmg_file d (map SFrame seg)) = firstn (intact (length seg) d) seg.
+  valid_frames (dmg_file d (map SFrame seg)) = firstn (intact (length seg) d) seg /\
+  clean (dmg_file d (map SFrame seg)) = (length seg <=? intact (length seg) d)%nat || clean_cut (length seg) d.
 Proof.
-  intros d seg H6. destruct d as [|s off|s off m|s off n vf vl]; cbn [dmg_file intact].
-  - rewrite valid_frames_ideal, firstn_all. reflexivity.
+  intros d seg H6. unfold clean.
+  destruct d as [|s off|s off m|s off n vf vl]; cbn [dmg_file intact clean_cut].
+  - rewrite valid_frames_ideal, firstn_all, map_length, Nat.eqb_refl, Nat.leb_refl. split; reflexivity.
   - rewrite file_bytes_ideal.
-    destruct ((0 <=? off) && (off <=? FRAME * Z.of_nat (length seg))).
-    + rewrite firstn_map, valid_frames_ideal. reflexivity.
-    + rewrite valid_frames_ideal, firstn_all. reflexivity.
-  - rewrite file_bytes_ideal.
+    destruct ((0 <=? off) && (off <=? FRAME * Z.of_nat (length seg))) eqn:C; cbn [andb].
+    + rewrite firstn_map, valid_frames_app_ideal. split.
+      * destruct (off mod FRAME =? 0); cbn [valid_frames slot_frame]; rewrite app_nil_r; reflexivity.
+      * assert (Hq : (Z.to_nat (off / FRAME) <= length seg)%nat) by (unfold FRAME in *; lia).
+        destruct (Z.eqb_spec (off mod FRAME) 0) as [E|E]; cbn [valid_frames slot_frame].
+        -- rewrite !app_nil_r, map_length, Nat.eqb_refl, orb_true_r. reflexivity.
+        -- rewrite app_nil_r, app_length, map_length, firstn_length. cbn [length]. rewrite orb_false_r.
+           destruct (Nat.leb_spec (length seg) (Z.to_nat (off / FRAME))) as [Hle|Hgt].
+           ++ exfalso. unfold FRAME in *. lia.
+           ++ apply Nat.eqb_neq. lia.
+    + rewrite valid_frames_ideal, firstn_all, map_length, Nat.eqb_refl, Nat.leb_refl. split; reflexivity.
+  - rewrite file_bytes_ideal. rewrite orb_false_r.
     destruct ((0 <=? off) && (off <? FRAME * Z.of_nat (length seg)) && negb (m mod 256 =? 0)) eqn:C.
-    + apply vf_set_bad. unfold FRAME in *. lia.
-    + rewrite valid_frames_ideal, firstn_all. reflexivity.
-  - rewrite file_bytes_ideal.
+    + assert (Hk : (Z.to_nat (off / FRAME) < length seg)%nat) by (unfold FRAME in *; lia).
+      rewrite vf_set_bad by exact Hk. split; [reflexivity|].
+      rewrite set_nth_length, map_length, firstn_length.
+      destruct (Nat.leb_spec (length seg) (Z.to_nat (off / FRAME))); [lia|]. apply Nat.eqb_neq. lia.
+    + rewrite valid_frames_ideal, firstn_all, map_length, Nat.eqb_refl, Nat.leb_refl. split; reflexivity.
+  - rewrite file_bytes_ideal. rewrite orb_false_r.
     destruct ((0 <=? off) && (off <? FRAME * Z.of_nat (length seg)) && (0 <? n)) eqn:C.
-    + apply vf_zero_slots. intro Hlt. cbn [Z.add].
-      replace (0 + Z.of_nat (zero_intact (length seg) 0 off (Z.min (off + n) (FRAME * Z.of_nat (length seg))) (off / FRAME) vf vl))
-        with (Z.of_nat (zero_intact (length seg) 0 off (Z.min (off + n) (FRAME * Z.of_nat (length seg))) (off / FRAME) vf vl)) by lia.
-      cbn [intact] in H6. rewrite C in H6. specialize (H6 Hlt).
-      unfold first_hit_zeroed in H6. rewrite C in H6. cbn [andb] in H6. cbn [intact] in H6. rewrite C in H6.
-      intro E. rewrite E in H6. discriminate.
-    + rewrite valid_frames_ideal, firstn_all. reflexivity.
+    + set (zi := zero_intact (length seg) 0 off (Z.min (off + n) (FRAME * Z.of_nat (length seg))) (off / FRAME) vf vl) in *.
+      assert (Hvf : valid_frames (zero_slots 0 off (Z.min (off + n) (FRAME * Z.of_nat (length seg))) (off / FRAME) vf vl (map SFrame seg)) = firstn zi seg).
+      { apply vf_zero_slots. fold zi. intro Hlt.
+        replace (0 + Z.of_nat zi) with (Z.of_nat zi) by lia.
+        cbn [intact] in H6. rewrite C in H6. fold zi in H6. specialize (H6 Hlt).
+        unfold first_hit_zeroed in H6. rewrite C in H6. cbn [andb] in H6. cbn [intact] in H6. rewrite C in H6. fold zi in H6.
+        intro E. rewrite E in H6. discriminate. }
+      rewrite Hvf. split; [reflexivity|].
+      rewrite zero_slots_length, map_length, firstn_length.
+      pose proof (zero_intact_le off (Z.min (off + n) (FRAME * Z.of_nat (length seg))) (off / FRAME) vf vl (length seg) 0) as Hle. fold zi in Hle.
+      destruct (Nat.leb_spec (length seg) zi); [apply Nat.eqb_eq; lia|apply Nat.eqb_neq; lia].
+    + rewrite valid_frames_ideal, firstn_all, map_length, Nat.eqb_refl, Nat.leb_refl. split; reflexivity.
 Qed.
 
 Lemma upd_nth_ge : forall {A} (f : A -> A) l k, (length l <= k)%nat -> upd_nth k f l = l.
@@ -298,120 +245,49 @@ Proof.
   cbn [concat app]. split; [exact Hc|]. destruct l; [reflexivity|exact Hla].
 Qed.
 
-(* the segment at position k (if any) may be damaged; what the class-4 / class-6 freedom gives *)
+(* the segment at position k (if any) may be damaged; what freedom from classes 6 / 7 gives *)
 Definition seg_ok (d : dmg) (k : nat) (log : list (list frame)) : Prop :=
   forall seg, nth_error log k = Some seg -> (intact (length seg) d < length seg)%nat ->
-    nonempty_after k log = false /\ first_hit_zeroed (length seg) d = false.
+    first_hit_zeroed (length seg) d = false /\ clean_cut (length seg) d && nonempty_after k log = false.
 
 Lemma seg_ok_tail : forall d k seg log, seg_ok d (S k) (seg :: log) -> seg_ok d k log.
 Proof. intros d k seg log H g Hn Hlt. apply (H g); assumption. Qed.
 
-(* B1: all segments: what recover reads = the longest valid prefix *)
+(* what recover reads from the damaged files = the longest valid prefix *)
 Lemma frames_after_fault : forall d log k i,
   (forall j, j <> (i + k)%nat -> is_dmg_seg d j = false) ->
   ((k < length log)%nat -> is_dmg_seg d (i + k) = true) ->
   seg_ok d k log ->
-  flat_map valid_frames (upd_nth k (dmg_file d) (map (map SFrame) log)) = vprefix i d log.
+  seg_frames (upd_nth k (dmg_file d) (map (map SFrame) log)) = vprefix i d log.
 Proof.
   intros d. induction log as [|seg log IH]; intros k i Hother Hhit Hok; [destruct k; reflexivity|].
   destruct k as [|k].
-  - cbn [map upd_nth flat_map vprefix]. rewrite Nat.add_0_r in *.
+  - cbn [map upd_nth seg_frames]. rewrite vprefix_cons. rewrite Nat.add_0_r in *.
     rewrite Hhit by (cbn [length]; lia). cbn [andb].
-    rewrite flat_map_valid_ideal.
+    rewrite seg_frames_ideal.
     destruct (Nat.ltb_spec (intact (length seg) d) (length seg)) as [Hlt|Hge].
-    + destruct (Hok seg eq_refl Hlt) as [Hne H6].
-      rewrite dmg_file_ideal by (intros _; exact H6).
-      unfold nonempty_after in Hne. cbn [skipn] in Hne.
-      destruct (all_empty_concat log Hne) as [Hc _]. rewrite Hc, app_nil_r. reflexivity.
-    + rewrite dmg_file_ideal by lia. rewrite firstn_all2 by lia.
+    + destruct (Hok seg eq_refl Hlt) as [H6 H7].
+      destruct (dmg_file_ideal d seg (fun _ => H6)) as [Hvf Hcl]. unfold clean in Hcl.
+      rewrite Hcl, Hvf.
+      destruct (Nat.leb_spec (length seg) (intact (length seg) d)) as [Hx|_]; [lia|]. cbn [orb].
+      destruct (clean_cut (length seg) d); [|reflexivity].
+      cbn [andb] in H7. unfold nonempty_after in H7. cbn [skipn] in H7.
+      destruct (all_empty_concat log H7) as [Hc _]. rewrite Hc, app_nil_r. reflexivity.
+    + destruct (dmg_file_ideal d seg) as [Hvf Hcl]; [lia|]. unfold clean in Hcl.
+      rewrite Hcl, Hvf.
+      destruct (Nat.leb_spec (length seg) (intact (length seg) d)) as [_|Hx]; [|lia]. cbn [orb].
+      rewrite firstn_all2 by lia.
       rewrite vprefix_nohit; [reflexivity|]. intros j Hj. apply Hother. lia.
-  - cbn [map upd_nth flat_map vprefix]. rewrite (Hother i) by lia. cbn [andb].
-    rewrite valid_frames_ideal. f_equal.
+  - cbn [map upd_nth seg_frames]. rewrite vprefix_cons. rewrite (Hother i) by lia. cbn [andb].
+    rewrite valid_frames_ideal, map_length, Nat.eqb_refl. f_equal.
     apply IH.
     + intros j Hj. apply Hother. lia.
     + intro Hk. replace (S i + k)%nat with (i + S k)%nat by lia. apply Hhit. cbn [length]. lia.
     + eapply seg_ok_tail; exact Hok.
 Qed.
 
-Lemma last_cons2 : forall {A} (x : A) l d, l <> [] -> last (x :: l) d = last l d.
-Proof. intros A x l d H. destruct l; [contradiction|reflexivity]. Qed.
-
-Lemma removelast_cons2 : forall {A} (x : A) l, l <> [] -> removelast (x :: l) = x :: removelast l.
-Proof. intros A x l H. destruct l; [contradiction|reflexivity]. Qed.
-
 Lemma upd_nth_nonnil : forall {A} (f : A -> A) l k, l <> [] -> upd_nth k f l <> [].
 Proof. intros A f l k H. destruct l; [contradiction|]. destruct k; discriminate. Qed.
-
-Lemma concat_removelast_last : forall (l : list (list frame)),
-  concat l = concat (removelast l) ++ last l [].
-Proof.
-  induction l as [|g l IH]; [reflexivity|].
-  destruct l as [|h l].
-  - cbn [concat removelast last app]. rewrite app_nil_r. reflexivity.
-  - rewrite removelast_cons2 by discriminate. rewrite last_cons2 by discriminate.
-    cbn [concat] in *. rewrite IH. rewrite app_assoc. reflexivity.
-Qed.
-
-Lemma last_map_ideal : forall (l : list (list frame)), last (map (map SFrame) l) [] = map SFrame (last l []).
-Proof.
-  induction l as [|g l IH]; [reflexivity|]. destruct l as [|h l]; [reflexivity|].
-  cbn [map] in *. rewrite last_cons2 by discriminate. rewrite (last_cons2 g) by discriminate. exact IH.
-Qed.
-
-(* B2: the latest segment: what Wal::open indexes = the part of the valid prefix that lies in it *)
-Lemma last_after_fault : forall d log k i,
-  log <> [] ->
-  (forall j, j <> (i + k)%nat -> is_dmg_seg d j = false) ->
-  ((k < length log)%nat -> is_dmg_seg d (i + k) = true) ->
-  seg_ok d k log ->
-  valid_frames (last (upd_nth k (dmg_file d) (map (map SFrame) log)) [])
-  = skipn (length (concat (removelast log))) (vprefix i d log).
-Proof.
-  intros d. induction log as [|seg log IH]; intros k i Hne Hother Hhit Hok; [contradiction|].
-  destruct log as [|seg2 log].
-  - (* the only segment *)
-    cbn [removelast concat length skipn].
-    destruct k as [|k].
-    + cbn [map upd_nth last vprefix]. rewrite Nat.add_0_r in *.
-      rewrite Hhit by (cbn [length]; lia). cbn [andb].
-      destruct (Nat.ltb_spec (intact (length seg) d) (length seg)) as [Hlt|Hge].
-      * destruct (Hok seg eq_refl Hlt) as [_ H6]. apply dmg_file_ideal. intros _; exact H6.
-      * rewrite dmg_file_ideal by lia. rewrite firstn_all2 by lia. rewrite app_nil_r. reflexivity.
-    + cbn [map upd_nth last vprefix]. rewrite (Hother i) by lia. cbn [andb].
-      destruct k; cbn [upd_nth last]; rewrite valid_frames_ideal, app_nil_r; reflexivity.
-  - (* at least two segments *)
-    rewrite removelast_cons2 by discriminate.
-    change (concat (seg :: removelast (seg2 :: log))) with (seg ++ concat (removelast (seg2 :: log))).
-    rewrite app_length.
-    destruct k as [|k].
-    + change (upd_nth 0 (dmg_file d) (map (map SFrame) (seg :: seg2 :: log)))
-        with (dmg_file d (map SFrame seg) :: map (map SFrame) (seg2 :: log)).
-      rewrite last_cons2 by discriminate. rewrite last_map_ideal, valid_frames_ideal.
-      rewrite vprefix_cons. rewrite Nat.add_0_r in *. rewrite Hhit by (cbn [length]; lia). cbn [andb].
-      destruct (Nat.ltb_spec (intact (length seg) d) (length seg)) as [Hlt|Hge].
-      * destruct (Hok seg eq_refl Hlt) as [Hnone _].
-        unfold nonempty_after in Hnone. cbn [skipn] in Hnone.
-        destruct (all_empty_concat (seg2 :: log) Hnone) as [_ Hla]. rewrite Hla.
-        rewrite skipn_all2; [reflexivity|]. rewrite firstn_length. lia.
-      * rewrite vprefix_nohit by (intros j Hj; apply Hother; lia).
-        rewrite skipn_app. rewrite skipn_all2 by lia.
-        replace (length seg + length (concat (removelast (seg2 :: log))) - length seg)%nat
-          with (length (concat (removelast (seg2 :: log)))) by lia.
-        cbn [app]. rewrite (concat_removelast_last (seg2 :: log)).
-        rewrite skipn_app, skipn_all, Nat.sub_diag. reflexivity.
-    + change (upd_nth (S k) (dmg_file d) (map (map SFrame) (seg :: seg2 :: log)))
-        with (map SFrame seg :: upd_nth k (dmg_file d) (map (map SFrame) (seg2 :: log))).
-      rewrite last_cons2 by (apply upd_nth_nonnil; discriminate).
-      rewrite vprefix_cons. rewrite (Hother i) by lia. cbn [andb].
-      rewrite skipn_app. rewrite skipn_all2 by lia. cbn [app].
-      replace (length seg + length (concat (removelast (seg2 :: log))) - length seg)%nat
-        with (length (concat (removelast (seg2 :: log)))) by lia.
-      apply IH.
-      * discriminate.
-      * intros j Hj. apply Hother. lia.
-      * intro Hk. replace (S i + k)%nat with (i + S k)%nat by lia. apply Hhit. cbn [length] in *. lia.
-      * eapply seg_ok_tail; exact Hok.
-Qed.
 
 (* ================================================================ C. putting it together *)
 (* position of the damaged segment file, or one past the end when there is none *)
@@ -449,7 +325,7 @@ Proof.
   destruct (0 <=? s); [|congruence].
   rewrite Hn in Hc.
   destruct (Nat.ltb_spec (intact (length seg) d) (length seg)) as [_|Hge]; [|lia].
-  destruct (nonempty_after (Z.to_nat s) log); [discriminate|].
   destruct (first_hit_zeroed (length seg) d); [discriminate|].
+  destruct (clean_cut (length seg) d && nonempty_after (Z.to_nat s) log); [discriminate|].
   split; reflexivity.
 Qed.
